@@ -191,8 +191,13 @@ class Engine:
             self.stats["paths_cut"] += 1
             self.stats["task_time_budget_exhausted"] = True
             raise PathAbort("task time budget")
+        guided = None
+        if self._guide is not None and i >= len(self.prefix):
+            guided = self._guided_direction(cond)
         if i < len(self.prefix):
             taken, forced = self.prefix[i]
+        elif guided is not None:
+            taken, forced = guided, False
         else:
             self._sync()
             self.stats["branch_points"] += 1
@@ -219,6 +224,33 @@ class Engine:
         # frame right before the next query (a long replayed prefix then costs one push instead of one per decision)
         self._pending.append(lit)
         return taken
+
+    def _guided_direction(self, cond):
+        """Concolic pre-pass: the direction a concrete valuation takes at this branch (None if the valuation does not decide it)."""
+        vec = self._guide
+        if self._guide_subst is None or self._guide_subst[0] != len(self.inputs):
+            sub = []
+            for name, var in self.inputs.items():
+                if name not in vec:
+                    continue
+                x = vec[name]
+                try:
+                    if z3.is_real(var):
+                        f = Fraction(x)
+                        sub.append((var, z3.RealVal(f.numerator) if f.denominator == 1 else z3.Q(f.numerator, f.denominator)))
+                    elif z3.is_int(var):
+                        sub.append((var, z3.IntVal(int(Fraction(x)))))
+                    elif z3.is_bv(var):
+                        sub.append((var, z3.BitVecVal(int(Fraction(x)), var.size())))
+                except (TypeError, ValueError):
+                    continue
+            self._guide_subst = (len(self.inputs), sub)
+        t = z3.simplify(z3.substitute(cond, *self._guide_subst[1])) if self._guide_subst[1] else cond
+        if z3.is_true(t):
+            return True
+        if z3.is_false(t):
+            return False
+        return None
 
     def _sync(self):
         if self._pending:
@@ -441,18 +473,30 @@ class Engine:
         return r, (self._extract(model) if model is not None else None)
 
     # ------------------------------------------------------------ exploration
-    def run(self, body, exception_is_result=True, before_path=None):
-        """Execute body() once per feasible path. Returns the list of PathResult."""
+    def run(self, body, exception_is_result=True, before_path=None, guides=()):
+        """Execute body() once per feasible path. Returns the list of PathResult.
+
+        `guides`: concrete valuations (name -> rational).  Each is followed first, as ONE path whose branch directions are those the
+        valuation takes (concolic pre-pass); the claims on that path are still decided by the solver for ALL values satisfying its path
+        condition.  The systematic depth-first exploration follows.  Under path explosion (budget cuts) the guided paths make sure the
+        regions around the listed valuations are covered; they never replace the systematic pass."""
         global _CUR
         from .values import HarnessError
         prev = _CUR
         _CUR = self
         self.prefix = []
         results = []
+        pending_guides = list(guides)
         try:
             while True:
                 self.solver.push()         # frame holding this path's assumes / lemmas
                 self._reset_path_inner()
+                self._guide = pending_guides.pop(0) if pending_guides else None
+                self._guide_subst = None
+                was_guided = self._guide is not None
+                if was_guided:
+                    self.prefix = []
+                    self.stats["guided_paths"] = self.stats.get("guided_paths", 0) + 1
                 if before_path is not None:
                     before_path()
                 value, exc = None, None
@@ -467,14 +511,22 @@ class Engine:
                     if not exception_is_result:
                         raise
                     exc = e
-                    self.stats["exceptions"] += 1
                     r, model = self._check()
+                    if r == "unsat":
+                        # the path itself is infeasible (possible on a guided path whose valuation lies outside the assumptions):
+                        # nothing was shown about the code
+                        aborted = True
+                        exc = None
+                        self._path_index += 0
+                    else:
+                        self.stats["exceptions"] += 1
                     vals = self._extract(model) if model is not None else None
                     if vals is not None:
                         vals["__choices__"] = list(self.choices)
-                    self.obligations.append(Obligation(
-                        "no-exception", "exception", self._path_index, model=vals,
-                        info={"type": type(e).__name__, "message": str(e)[:300]}))
+                    if not aborted:
+                        self.obligations.append(Obligation(
+                            "no-exception", "exception", self._path_index, model=vals,
+                            info={"type": type(e).__name__, "message": str(e)[:300]}))
                 if not aborted:
                     results.append(PathResult(self._path_index, list(self._path_assumes) + list(self.pc),
                                               value, exc, list(self.trace), self.choices))
@@ -486,6 +538,16 @@ class Engine:
                     self.solver.pop()
                     self._levels -= 1
                 self.solver.pop()
+                if was_guided:
+                    # guided paths do not take part in the depth-first bookkeeping: the systematic pass starts from scratch afterwards
+                    self._guide = None
+                    self.prefix = []
+                    nviol = sum(1 for o in self.obligations if o.status in ("violated", "exception")
+                                and not (o.info or {}).get("canary"))
+                    if nviol >= self.max_violations:
+                        self.stats["stopped_after_violations"] = nviol
+                        break
+                    continue
                 while dec and (dec[-1][1] or dec[-1][0] is False):
                     dec.pop()
                 if not dec:
@@ -508,6 +570,9 @@ class Engine:
             _CUR = prev
         self.paths = results
         return results
+
+    _guide = None
+    _guide_subst = None
 
     def _reset_path_inner(self):
         self.trace, self.pc = [], []
